@@ -58,9 +58,10 @@ VARIABLES opt,      \* [hf |-> hist partition factor, df |-> deduped partition f
           base,     \* prune base: majors below are pruned
           ckroot,   \* block version whose tries were checkpointed last (canonical block base-1), or NoVer
           pend,     \* pending prune target between Checkpoint and DeleteHist (0 = none)
+          crashed,  \* the process died inside the pending round: the round has to be run again from its checkpoint
           rcache,   \* root cache of the open MuxDB: [Names -> root version or NoVer]
           w         \* working copy: [par |-> block version or NoVer (closed), cur, touched]
-vars == <<opt, vers, anc, rootv, cont, tver, ever, wl, use, delp, dedup, base, ckroot, pend, rcache, w>>
+vars == <<opt, vers, anc, rootv, cont, tver, ever, wl, use, delp, dedup, base, ckroot, pend, crashed, rcache, w>>
 
 V(a, b) == [maj |-> a, min |-> b]
 NoVer == V(0 - 1, 0)
@@ -182,7 +183,7 @@ InitWith(o, c0) ==
   /\ wl = [k \in DOMAIN MergeAll([n \in ne |-> res[n].nodes], ne) |-> o.hf]
   /\ use = [hf |-> o.hf, df |-> o.df]
   /\ delp = 0 /\ dedup = <<>>
-  /\ base = 0 /\ ckroot = NoVer /\ pend = 0
+  /\ base = 0 /\ ckroot = NoVer /\ pend = 0 /\ crashed = FALSE
   /\ rcache = [n \in Names |-> IF n \in ne THEN Genesis ELSE NoVer]
   /\ w = Closed
 Init == \E o \in Opts, c0 \in InitConts : InitWith(o, c0)
@@ -192,18 +193,18 @@ CanOpen(p) == w.par = NoVer /\ p \in vers /\ Retained(p) /\ p.maj < MaxMaj
 Open(p) ==
   /\ CanOpen(p)
   /\ w' = [par |-> p, cur |-> Logical(p), touched |-> [n \in Names |-> {}]]
-  /\ UNCHANGED <<opt, vers, anc, rootv, cont, tver, ever, wl, use, delp, dedup, base, ckroot, pend, rcache>>
+  /\ UNCHANGED <<opt, vers, anc, rootv, cont, tver, ever, wl, use, delp, dedup, base, ckroot, pend, rcache, crashed>>
 
 \* trie.Update: an insert of the value already there and a delete of an absent key leave the path clean
 Update(n, k, v) ==
   /\ w.par # NoVer /\ v # w.cur[n][k]
   /\ w' = [w EXCEPT !.cur[n][k] = v, !.touched[n] = @ \cup {k}]
-  /\ UNCHANGED <<opt, vers, anc, rootv, cont, tver, ever, wl, use, delp, dedup, base, ckroot, pend, rcache>>
+  /\ UNCHANGED <<opt, vers, anc, rootv, cont, tver, ever, wl, use, delp, dedup, base, ckroot, pend, rcache, crashed>>
 \* delete + re-insert of the same value inside one block: content unchanged, path dirty
 Touch(n, k) ==
   /\ w.par # NoVer /\ w.cur[n][k] # 0
   /\ w' = [w EXCEPT !.touched[n] = @ \cup {k}]
-  /\ UNCHANGED <<opt, vers, anc, rootv, cont, tver, ever, wl, use, delp, dedup, base, ckroot, pend, rcache>>
+  /\ UNCHANGED <<opt, vers, anc, rootv, cont, tver, ever, wl, use, delp, dedup, base, ckroot, pend, rcache, crashed>>
 
 NextMinor(m) == Cardinality({b \in vers : b.maj = m})
 \* commit of the working copy (p, cur, touched) as block version b: state.Stage.Commit commits every storage-like
@@ -222,7 +223,7 @@ DoCommit2(p, cur, b, res, nrv, cs) ==
      /\ wl' = Merge(wl, [k \in DOMAIN MergeAll([n \in cs |-> res[n].nodes], cs) |-> use.hf])
      /\ rcache' = [n \in Names |-> IF nrv[n] = b THEN b ELSE rcache[n]]
      /\ w' = Closed
-     /\ UNCHANGED <<opt, use, delp, dedup, base, ckroot, pend>>
+     /\ UNCHANGED <<opt, use, delp, dedup, base, ckroot, pend, crashed>>
 \* a storage-like trie exists only below an account: its root reference lives in a leaf of a main trie, so a state
 \* with a non-empty storage-like trie has a non-empty main trie (whose root must be fetched first)
 Linked(cur) == (\E n \in Names \ Main : cur[n] # Empty) => (\E m \in Main : cur[m] # Empty)
@@ -283,16 +284,51 @@ Checkpoint(t, target) ==
        /\ \A e \in new : e[2] # NoNode
        /\ dedup' = Merge(dedup, AsFun(new))
   /\ pend' = target /\ ckroot' = t
-  /\ UNCHANGED <<opt, vers, anc, rootv, cont, tver, ever, wl, use, delp, base, rcache, w>>
+  /\ UNCHANGED <<opt, vers, anc, rootv, cont, tver, ever, wl, use, delp, base, rcache, w, crashed>>
 
 \* backend.DeleteHistoryNodes: whole partitions [base/hf, target/hf)
 \* i.e. exactly the versions below floor(target/hf)*hf: the partition that contains an unaligned target stays
 DelLimit(target) == target \div use.hf
 DeleteHist ==
-  /\ pend # 0
+  /\ pend # 0 /\ ~crashed
   /\ delp' = IF DelLimit(pend) > delp THEN DelLimit(pend) ELSE delp
   /\ base' = pend /\ pend' = 0
-  /\ UNCHANGED <<opt, vers, anc, rootv, cont, tver, ever, wl, use, dedup, ckroot, rcache, w>>
+  /\ UNCHANGED <<opt, vers, anc, rootv, cont, tver, ever, wl, use, dedup, ckroot, rcache, w, crashed>>
+
+\* ---------------------------------------------------------------- crash inside a prune round, and the round again
+\* The pruner persists its base only after the range delete.  A process that dies inside a round therefore starts the
+\* SAME round [base, target) again: checkpoint first, then delete.  What is durable at the crash:
+\*  - in the checkpoint: the tries are checkpointed one after the other (index, account, storage tries), each through
+\*    a bulk that is flushed by size: some tries completely, one up to some point of the pre-order walk;
+\*  - in the range delete: partitions are deleted in ascending order: the partitions below some x (x = all of them:
+\*    the crash hit between the delete and status.Save).
+PathBefore(p, q) == p # q /\ (IsPrefix(p, q) \/ \E i \in 1..Len(p) : /\ i <= Len(q)
+                                                                      /\ \A j \in 1..(i - 1) : p[j] = q[j]
+                                                                      /\ p[i] < q[i])
+NameRank(n) == IF n \in Main THEN (IF n = "i" THEN 0 ELSE 1) ELSE 2
+EntryBefore(e, x) == NameRank(e[1][2]) < NameRank(x[1][2]) \/ (e[1][2] = x[1][2] /\ PathBefore(e[1][3], x[1][3]))
+Restarted == rcache' = [n \in Names |-> NoVer] /\ w' = Closed
+CrashInCheckpoint(t, target) ==
+  /\ CanPrune(t, target)
+  /\ \E all \in {CkptAll(t, base)} :
+       /\ \A e \in all : e[2] # NoNode
+       /\ \E x \in all : dedup' = Merge(dedup, AsFun({e \in all : EntryBefore(e, x)}))
+  /\ pend' = target /\ ckroot' = t /\ crashed' = TRUE /\ Restarted
+  /\ UNCHANGED <<opt, vers, anc, rootv, cont, tver, ever, wl, use, delp, base>>
+CrashInDelete(x) ==
+  /\ pend # 0 /\ ~crashed
+  /\ x > delp /\ x <= DelLimit(pend)
+  /\ delp' = x /\ crashed' = TRUE /\ Restarted
+  /\ UNCHANGED <<opt, vers, anc, rootv, cont, tver, ever, wl, use, dedup, base, ckroot, pend>>
+\* the round again: the checkpoint walk must find everything it needs (some of it only in the deduped space by now)
+ResumeWalk == CkptAll(ckroot, base)
+ResumeCheckpoint ==
+  /\ pend # 0 /\ crashed
+  /\ \E new \in {ResumeWalk} :
+       /\ \A e \in new : e[2] # NoNode
+       /\ dedup' = Merge(dedup, AsFun(new))
+  /\ crashed' = FALSE
+  /\ UNCHANGED <<opt, vers, anc, rootv, cont, tver, ever, wl, use, delp, base, ckroot, pend, rcache, w>>
 
 \* a new MuxDB over the same store (muxdb.Open with possibly different Options): caches are gone, an open working
 \* copy is dropped; the key layout is the PERSISTED one, whatever partition factors the caller asks for
@@ -301,7 +337,7 @@ ReopenWith(req) ==
   /\ rcache' = [n \in Names |-> NoVer]
   /\ w' = Closed
   /\ use' = LayoutAfterReopen([hf |-> opt.hf, df |-> opt.df], req)
-  /\ UNCHANGED <<opt, vers, anc, rootv, cont, tver, ever, wl, delp, dedup, base, ckroot, pend>>
+  /\ UNCHANGED <<opt, vers, anc, rootv, cont, tver, ever, wl, delp, dedup, base, ckroot, pend, crashed>>
 ReopenAny == ReopenWith([hf |-> opt.hf, df |-> opt.df])
 Reopen == (w.par # NoVer \/ \E n \in Names : rcache[n] # NoVer) /\ ReopenAny
 
@@ -322,6 +358,9 @@ NextStore ==
   \/ \E t \in vers : Checkpoint(t, t.maj + 1)
   \/ DeleteHist
   \/ Reopen
+  \/ \E t \in vers : CrashInCheckpoint(t, t.maj + 1)
+  \/ \E x \in 1..(MaxMaj + 1) : CrashInDelete(x)
+  \/ ResumeCheckpoint
 Next == NextFine \/ NextStore
 Spec == Init /\ [][Next]_vars
 
@@ -357,6 +396,10 @@ RootCanonical ==
           /\ tver[n][rv][q].maj <= rv.maj
           /\ \A r \in DOMAIN tver[n][rv] : IsPrefix(q, r) =>
                (tver[n][rv][r].maj < tver[n][rv][q].maj \/ tver[n][rv][r] = tver[n][rv][q])
+\* NOT an invariant of the design (MC_NodeStore_teeth_resume.cfg): a round that crashed can always be run again.
+\* A crash after the range delete has removed the partition of block target-1 (its main roots are fetched from hist
+\* only) leaves a round whose checkpoint walk fails for good, while the persisted base still says "not done".
+Resumable == crashed => \A e \in ResumeWalk : e[2] # NoNode
 \* the open MuxDB always composes keys with the layout the database was created with
 LayoutPersistent == use = [hf |-> opt.hf, df |-> opt.df]
 \* old versions do become unreadable (the pruner does prune): whole deleted partitions hold no main root
